@@ -326,8 +326,39 @@ def check(run: Run) -> None:
                             f"the cursor moved to the parent (erase key `{cn(key) if key is not None else '?'}` on `{cn(c.fn.obj)}`): a sibling input that is still active "
                             "is dropped from the activity trie and stops waking the node", loc=fa.loc(c))
 
+        # the prune climbs only while the node at the cursor has NO active descendant left (has_any_active(): the node itself or, recursively, a child);
+        # a weaker test (the node's own flag) erases an ancestor that still carries active siblings
+        loops = [l for l in fa.body.walk() if isinstance(l, (C.While, C.For, C.DoWhile)) and any(any(x is c for x in l.body.walk()) for c in erases)]
+        run.sites(len(loops), 1, "trie prune loop")
+        for lp in loops:
+            conj = []
+            st = [lp.cond]
+            while st:
+                e = st.pop()
+                if isinstance(e, C.Binary) and e.op == "&&":
+                    st += [e.l, e.r]
+                elif e is not None:
+                    conj.append(cn(e).replace(" ", ""))
+            cursor = {cn(c.fn.obj).rsplit("->", 1)[0] for c in erases}
+            cursor |= {cn(x.l) for x in lp.body.walk() if isinstance(x, C.Binary) and x.op == "=" and isinstance(x.l, C.Id)}   # the variable the loop moves
+            run.count(1, "C03.i.guard")
+            if not any(re.fullmatch(r"!(\w+)->has_any_active\(\)", x) and re.fullmatch(r"!(\w+)->has_any_active\(\)", x).group(1) in cursor for x in conj):
+                run.finding("C03.i", "TSInput::make_passive:prune-guard", f"the prune loop must continue only while the node at the cursor has no active descendant "
+                            f"(`!cursor->has_any_active()`); its condition is {sorted(conj)}: an ancestor with other active children is erased and those inputs stop waking the node",
+                            loc=fa.loc(lp))
+        fh = R.fn(run, "src/hgraph/types/time_series/ts_input.cpp", "TSInputActiveTarget::has_any_active")
+        ch = R.Canon()
+        own = [s0 for s0 in fh.body.stmts if isinstance(s0, C.If) and ch(s0.cond) == "active" and [ch(r.e) for r in R.find(s0.then, lambda n: isinstance(n, C.Return))] == ["true"]]
+        rec = [c for c in R.calls(fh, "has_any_active")]
+        anyof = [c for c in R.calls(fh, "any_of") if isinstance(c.fn, C.Member) and ch(c.fn.obj) == "children"]
+        run.count(1, "C03.i.has_any_active")
+        if not (own and rec and anyof):
+            run.finding("C03.i", "TSInputActiveTarget::has_any_active", "has_any_active() must be true iff the node itself is active or any child (recursively) is", loc=fh.loc(fh.body))
+
 
 VARIANTS = [
+    {"id": "i2-seed-C03-6-prune-guard-own-flag", "expect": "C03.i", "edits": [{"file": "src/hgraph/types/time_series/ts_input.cpp", "find": "        while (active != nullptr && !active->has_any_active())", "replace": "        while (active != nullptr && !active->active)"}]},
+    {"id": "i2-has-any-active-ignores-children", "expect": "C03.i", "edits": [{"file": "src/hgraph/types/time_series/ts_input.cpp", "find": "            if (active) { return true; }\n            return children.any_of([](std::size_t, const TSInputActiveTarget &child) {\n                return child.has_any_active();\n            });", "replace": "            return active;"}]},
     {"id": "i-prune-reads-slot-after-move", "expect": "C03.i", "edits": [{"file": "src/hgraph/types/time_series/ts_input.cpp", "find": "            const auto slot = active->slot;\n            active = parent;\n            static_cast<void>(active->children.erase(slot));", "replace": "            active = parent;\n            static_cast<void>(active->children.erase(active->slot));"}]},
     {"id": "i-twin-erase-through-parent-first", "expect": None, "edits": [{"file": "src/hgraph/types/time_series/ts_input.cpp", "find": "            const auto slot = active->slot;\n            active = parent;\n            static_cast<void>(active->children.erase(slot));", "replace": "            const auto slot = active->slot;\n            static_cast<void>(parent->children.erase(slot));\n            active = parent;"}]},
     {"id": "e-passive-marker-ignores-declared-active-list", "expect": "C03.e", "edits": [{"file": NODE, "find": "        std::vector<std::size_t> active;\n        if (schema.active_inputs.has_value()) { active = *schema.active_inputs; }\n        else\n        {\n            active.resize(input_count);\n            for (std::size_t slot = 0; slot < input_count; ++slot) { active[slot] = slot; }\n        }", "replace": "        std::vector<std::size_t> active(input_count);\n        for (std::size_t slot = 0; slot < input_count; ++slot) { active[slot] = slot; }"}]},
